@@ -409,7 +409,15 @@ def verify(names, pid=None, canaries=False, lock=None):
                                        "backend": rr[0]["backend"], "time_s": round(sum(r["time_s"] for r in rr), 3),
                                        "kind": "canary (a deliberately false contract variant must not be provable)"})
             if not notproved:
-                res["errors"].append(f"UNSOUND ENGINE: canary {t[0]} was proved")
+                # a false variant is false of the UNCHANGED code only: on changed source a proved variant says
+                # nothing about the engine (the change may have made it true)
+                cur = next((f["sha256"] for f in res["functions"] if f["name"] == fname), None)
+                locked = (lock or {}).get(fname, {}).get("sha256")
+                if lock is None or locked is None or locked == cur:
+                    res["errors"].append(f"UNSOUND ENGINE: canary {t[0]} was proved")
+                else:
+                    res["obligations"][-1]["detail"] = ("false variant provable on CHANGED source (not an engine "
+                                                        "soundness signal)")
             continue
         r = rr[0]
         if kind == "lemma":
